@@ -9,6 +9,7 @@
    iterator results: "ok" followed by one token per executed call. *)
 open Io
 let ip = Extracted.iter
+let sp = Extracted.serde
 let v = Base.coq_val
 let w32 = Zar.shift_left Zar.one 32
 let b256 = Zar.of_int 256
@@ -149,23 +150,23 @@ let init () =
   (* ---- serde (C17) *)
   let ser_line (l, ws) = res_l l ^ " " ^ res_w ws in
   reg_ms "u.ser"
-    (one (fun a -> "ok " ^ ser_line (Serde.ser_biguint (uarg a))))
+    (one (fun a -> "ok " ^ ser_line (Serde.ser_biguint sp (uarg a))))
     (one (fun a -> "ok " ^ ser_line (SpecBytes.spec_ser (v (uarg a)))));
   reg_ms "i.ser"
-    (one (fun a -> let (s, p) = Serde.ser_bigint (iarg a) in "ok " ^ res_s "i8" s ^ " " ^ ser_line p))
+    (one (fun a -> let (s, p) = Serde.ser_bigint sp (iarg a) in "ok " ^ res_s "i8" s ^ " " ^ ser_line p))
     (one (fun a -> let (s, p) = SpecBytes.spec_iser (Base.ival (iarg a)) in "ok " ^ res_s "i8" s ^ " " ^ ser_line p));
   let de_res pr = function None -> "err" | Some x -> ok (pr x) in
   reg_ms "u.de"
-    (two (fun h a -> de_res res_u (Serde.de_biguint_tokens (arg_hint h) (arg_d a))))
+    (two (fun h a -> de_res res_u (Serde.de_biguint_tokens sp (arg_hint h) (arg_d a))))
     (two (fun _ a -> de_res (fun z -> res_u (Base.enc z)) (SpecBytes.spec_de (arg_d a))));
   reg_ms "i.de"
-    (three (fun s h a -> de_res res_i (Serde.de_bigint (snd (arg_s s)) (arg_hint h) (arg_d a))))
+    (three (fun s h a -> de_res res_i (Serde.de_bigint sp (snd (arg_s s)) (arg_hint h) (arg_d a))))
     (three (fun s _ a -> de_res (fun z -> res_i (ienc z)) (SpecBytes.spec_ide (snd (arg_s s)) (arg_d a))));
   reg_ms "u.serde_rt"
-    (one (fun a -> let (l, ws) = Serde.ser_biguint (uarg a) in
-                   de_res res_u (Serde.de_biguint_tokens (Some l) ws)))
+    (one (fun a -> let (l, ws) = Serde.ser_biguint sp (uarg a) in
+                   de_res res_u (Serde.de_biguint_tokens sp (Some l) ws)))
     (one (fun a -> ok (res_u (Base.enc (v (uarg a))))));
   reg_ms "i.serde_rt"
-    (one (fun a -> let (s, (l, ws)) = Serde.ser_bigint (iarg a) in
-                   de_res res_i (Serde.de_bigint s (Some l) ws)))
+    (one (fun a -> let (s, (l, ws)) = Serde.ser_bigint sp (iarg a) in
+                   de_res res_i (Serde.de_bigint sp s (Some l) ws)))
     (one (fun a -> ok (res_i (ienc (Base.ival (iarg a))))))
